@@ -479,6 +479,54 @@ def check_shr(ctx, fb):
               "shift 0 returns the operand" % nst, "shr is no longer a pure multi-limb right shift of the canonical representative: %s" % bad[:3], loc(it))
 
 
+# ------------------------------------------------------------------ R19-7 conversions between the field and 256-bit integers
+def check_conversions(ctx, fb):
+    """R19-7: every operator of the Montgomery evaluator, every input of evaluate and every integer constant passes through
+    fr_to_u256 / u256_to_fr, so they must be the identity on values: fr_to_u256(x) = the four limbs of x's canonical
+    representative, u256_to_fr(v) = the field element of ALL four limbs of v, on one unconditional path (a shortcut that looks at
+    some limbs only, or a value-dependent case split, changes the operand for the values it misjudges)."""
+    spec = {
+        "fr_to_u256": lambda rv: rv[0] == "call" and rv[1].endswith("from_limbs") and len(rv[2]) == 1 and
+                                 rv[2][0] == F(("call", "<ark_ff::Fp<P, N> as ark_ff::PrimeField>::into_bigint", (P(1),)), "0"),
+        "u256_to_fr": lambda rv: rv[0] == "unwrap" and rv[1][0] == "call" and re.search(SINK_RX, rv[1][1]) and
+                                 strip_new(rv[1][2][0]) == ("call", "ruint::Uint::<BITS, LIMBS>::into_limbs", (P(1),)),
+    }
+    for name, okf in sorted(spec.items()):
+        it = fb.need(G + name)
+        ctx.touch(it)
+        eng = Engine(fb, inline=lambda i: i.file == it.file and not re.search(r"eval_fr$|::eval$", i.path), max_depth=3)
+        ps = [p for p in eng.run(it) if p.kind != "unreachable"]
+        rets = [p for p in ps if p.kind == "return"]
+        why = ""
+        data_conds = [a for p in ps for a, v in p.conds() if not (isinstance(a, tuple) and a[0] in ("ok", "some") and a[1][0] == "call" and re.search(SINK_RX, a[1][1]))]
+        if data_conds:
+            why = "the conversion distinguishes cases by %s: specification one path over the whole value" % sh(data_conds[0], 120)
+        elif not rets:
+            why = "no returning path"
+        else:
+            for p in rets:
+                rv = eng.value_of(p.store, p.ret)
+                try:
+                    good = bool(okf(norm_conv(rv)))
+                except (IndexError, TypeError):
+                    good = False
+                if not good:
+                    why = "returns %s" % sh(rv, 140)
+                    break
+        ctx.check(not why, "R19-7", name, {"fr_to_u256": "U256::from_limbs(x.into_bigint().0)", "u256_to_fr": "Fr::from_bigint(BigInt::new(v.into_limbs())) of all four limbs, unconditionally"}[name], "%s: %s" % (name, why), loc(it))
+
+
+def strip_new(t):
+    return t[2][0] if isinstance(t, tuple) and t[0] == "call" and t[1].endswith("BigInt::<N>::new") and len(t[2]) == 1 else t
+
+
+def norm_conv(rv):
+    # expect(..) / unwrap(..) / unwrap_or_else(panic) all read as unwrap; BigInt(limbs) literal reads as BigInt::new(limbs)
+    if isinstance(rv, tuple) and rv and rv[0] in ("expect",):
+        return ("unwrap",) + tuple(rv[1:])
+    return rv
+
+
 # ------------------------------------------------------------------ R19-4 divisors, shifts, reachability of panics per arm
 DIV_RX = r"ruint::div::<impl std::ops::(Div|Rem) for|ruint::div::<impl ruint::Uint<BITS, LIMBS>>::div_rem$"
 ZERO_INT = lambda t: const_int(t) == 0
@@ -757,6 +805,7 @@ def run(ctx):
     check_guards(ctx, fb)
     check_intdiv(ctx, fb)
     check_ring_ops(ctx, fb)
+    check_conversions(ctx, fb)
     # fixtures
     fx = ctx.fb("fixtures")
     try:
